@@ -113,6 +113,8 @@ def scenario_family(rng, tier, *, nested=True, flat=True, callbacks=True, depth=
         if callbacks and rs.random() < 0.2 and scn.get("speed", [1, 1]) == [1, 1]:
             # the same shapes at the scale of seconds / minutes / hours of simulated time with wakeups a few ns apart
             scn = S.rescale_times(scn, rs.choice((1_000, 60_000, 3_600_000)), rs)
+        if rs.random() < 0.3:
+            scn = S.permute_names(scn, rs)   # the same topology under another order of the names
         if rs.random() < 0.15:
             scn = S.tricky_rename(scn, rs)   # confusable component names (case, punctuation, affixes of topic names)
         out.append(scn)
